@@ -108,6 +108,17 @@ class Opaque(V):
         return f"Opaque({self.name})"
 
 
+class Seq(V):
+    """growable sequence (Vec<T> / slice) with a concrete number of symbolic elements on each path"""
+    __slots__ = ("items",)
+
+    def __init__(self, items):
+        self.items = list(items)
+
+    def __repr__(self):
+        return f"Seq({self.items})"
+
+
 class Unit(V):
     def __repr__(self):
         return "()"
@@ -333,9 +344,10 @@ def split_top(s, sep=","):
 
 
 class MirFile:
-    def __init__(self, path):
+    def __init__(self, path, others=()):
         self.text = open(path).read()
         self.fns = {}
+        self.others = list(others)   # further MirFiles (dependency crates) consulted for inlined callees
         self._index()
 
     def _index(self):
@@ -343,6 +355,21 @@ class MirFile:
         self.headers = []
         for m in re.finditer(r"^fn (.+?) \{$", self.text, re.M):
             self.headers.append((m.start(), m.group(1)))
+        self.promoted = {}
+        for m in re.finditer(r"^const (.+?::promoted\[\d+\]): (.+?) = \{$", self.text, re.M):
+            self.promoted[m.group(1)] = (m.start(), m.group(2))
+
+    def find_promoted(self, fn_name, idx):
+        key = f"{fn_name}::promoted[{idx}]"
+        if key not in self.promoted:
+            raise Unsupported("promoted constant " + key)
+        pos, ty = self.promoted[key]
+        end = self.text.index("\n}\n", pos) + 3
+        body = self.text[pos:end]
+        # reuse the function parser: rewrite the header
+        hdr = body.split("\n", 1)
+        fake = f"fn {key}() -> {ty} {{\n" + hdr[1]
+        return parse_fn(fake)
 
     def find(self, pattern):
         """unique function whose header matches regex `pattern`"""
@@ -372,6 +399,12 @@ class MirFile:
             hits2 = [(p, h) for p, h in hits if last2[0].split("<")[0] in h]
             if hits2:
                 hits = hits2
+        if len(hits) == 0:
+            for o in self.others:
+                try:
+                    return o.find_by_callee(callee)
+                except Unsupported:
+                    pass
         if len(hits) != 1:
             raise Unsupported(f"call target {callee!r} resolves to {len(hits)} MIR functions")
         return self.find("^" + re.escape(hits[0][1]) + "$")
@@ -426,13 +459,18 @@ class Panic(Exception):
 
 
 class Interp:
-    def __init__(self, mir, backend, models=None, inline=(), max_block_visits=4, prune=True):
+    def __init__(self, mir, backend, models=None, inline=(), max_block_visits=4, prune=True, registry=None,
+                 max_steps=4000, merge=True):
         self.mir, self.be, self.models = mir, backend, dict(models or {})
         self.inline = list(inline)      # regexes of callee names to execute from MIR
         self.max_block_visits = max_block_visits
+        self.registry = registry
+        self.max_steps = max_steps
+        self.merge = merge
+        self._live = {}
         self.prune = prune
         self.functions_encoded = []
-        self.stats = {"paths": 0, "pruned": 0, "blocks": 0}
+        self.stats = {"paths": 0, "pruned": 0, "blocks": 0, "merged": 0}
         self._fresh = itertools.count()
 
     # ---- helpers
@@ -463,6 +501,7 @@ class Interp:
             self.functions_encoded.append(fn.header)
         p = Path()
         p.pc = list(pre)
+        p.fn_stack = [fn]
         for (idx, ty), a in zip(fn.params, args):
             p.locals[idx] = Cell(a)
         done = []
@@ -471,13 +510,28 @@ class Interp:
         return done
 
     def _exec(self, fn, p, bb, visits, done):
-        work = [(p, bb, visits)]
-        while work:
-            p, bb, visits = work.pop()
-            visits = dict(visits)
-            visits[bb] = visits.get(bb, 0) + 1
-            if visits[bb] > self.max_block_visits:
-                raise Unsupported(f"loop bound exceeded at bb{bb} in {fn.name} (more than {self.max_block_visits} visits on one path)")
+        """run `fn` from block bb on path p (and its forks) to completion; finished paths go to `done`.
+        Paths waiting at a CFG join are merged when their live state is structurally compatible
+        (Int/Bool leaves are merged with ite over the diverging path-condition suffixes)."""
+        joins, live = self._analysis(fn)
+        p.steps = getattr(p, "steps", 0)
+        queue = [(p, bb)]
+        while queue:
+            # least advanced path first
+            k = min(range(len(queue)), key=lambda i: queue[i][0].steps)
+            p, bb = queue.pop(k)
+            if self.merge and bb in joins:
+                same = [i for i, (q, b2) in enumerate(queue) if b2 == bb]
+                for i in sorted(same, reverse=True):
+                    q = queue[i][0]
+                    m = merge_paths(self, p, q, live.get(bb))
+                    if m is not None:
+                        p = m
+                        queue.pop(i)
+                        self.stats["merged"] += 1
+            p.steps += 1
+            if p.steps > self.max_steps:
+                raise Unsupported(f"step bound {self.max_steps} exceeded in {fn.name} (unbounded loop?)")
             self.stats["blocks"] += 1
             stmts = fn.blocks[bb]
             try:
@@ -492,7 +546,52 @@ class Interp:
                 if nb is None:
                     done.append(q)
                 else:
-                    work.append((q, nb, visits))
+                    q.steps = max(getattr(q, "steps", 0), p.steps)
+                    queue.append((q, nb))
+
+    def _analysis(self, fn):
+        """join blocks (>= 2 predecessors) and live-in locals per block (backward dataflow on the MIR text)"""
+        if fn.header in self._live:
+            return self._live[fn.header]
+        succ, use, defs = {}, {}, {}
+        for bb, stmts in fn.blocks.items():
+            t = stmts[-1]
+            succ[bb] = [int(x) for x in re.findall(r"bb(\d+)", t.split("->", 1)[1])] if "->" in t else []
+            u, d = set(), set()
+            for st in stmts:
+                body = st
+                m = re.match(r"_(\d+) = (.*)$", st)
+                if m:
+                    rhs_locals = set(int(x) for x in re.findall(r"_(\d+)\b", m.group(2)))
+                    u |= (rhs_locals - d)
+                    d.add(int(m.group(1)))
+                else:
+                    u |= (set(int(x) for x in re.findall(r"_(\d+)\b", body)) - d)
+            use[bb], defs[bb] = u, d
+        preds = {bb: 0 for bb in fn.blocks}
+        for bb, ss in succ.items():
+            for x in ss:
+                if x in preds:
+                    preds[x] += 1
+        joins = {bb for bb, n in preds.items() if n >= 2}
+        live = {bb: set() for bb in fn.blocks}
+        changed = True
+        while changed:
+            changed = False
+            for bb in fn.blocks:
+                out = set()
+                for x in succ[bb]:
+                    out |= live.get(x, set())
+                new = use[bb] | (out - defs[bb])
+                if bb == max(fn.blocks):
+                    pass
+                if new != live[bb]:
+                    live[bb] = new; changed = True
+        # _0 and reference-typed params stay live (return value / out-parameters)
+        for bb in live:
+            live[bb] |= {0} | {i for i, _ in fn.params}
+        self._live[fn.header] = (joins, live)
+        return joins, live
 
     # ---- places
     def parse_place(self, s):
@@ -576,6 +675,8 @@ class Interp:
         if k == "index_const":
             if isinstance(v, Tup):
                 return v.f[proj[1]]
+            if isinstance(v, Seq):
+                return v.items[proj[1]]
         raise Unsupported(f"projection {proj} on {v}")
 
     def read_place(self, p, s):
@@ -630,11 +731,24 @@ class Interp:
     # ---- operands
     def operand(self, p, s):
         s = s.strip()
+        if s.startswith("no_retag "):
+            s = s[9:]
         if s.startswith("copy ") or s.startswith("move "):
             return copy_value(self.read_place(p, s[5:]))
         if s.startswith("const "):
+            m = re.search(r"::promoted\[(\d+)\]$", s)
+            if m:
+                return self.promoted_const(p, int(m.group(1)))
             return self.constant(s[6:])
         raise Unsupported("operand " + s)
+
+    def promoted_const(self, p, idx):
+        fn = p.fn_stack[-1]
+        target = self.mir.find_promoted(fn.name, idx)
+        res = self.call_mir(target, p, [])
+        if len(res) != 1 or res[0][1] is PANIC:
+            raise Unsupported("promoted constant does not evaluate to a single value")
+        return res[0][1]
 
     def constant(self, c):
         c = c.strip()
@@ -672,6 +786,8 @@ class Interp:
     def rvalue(self, fn, p, s, dest_ty):
         be = self.be
         s = s.strip()
+        if s.startswith("no_retag "):
+            s = s[9:]
         if s.startswith(("copy ", "move ", "const ")) and " as " not in self._strip_parens(s):
             return self.operand(p, s)
         # cast
@@ -748,6 +864,16 @@ class Interp:
         m = re.match(r"(?:[\w:]+::)?Wrapping::<\w+>\((.+)\)$", s)
         if m:
             return Tup([self.operand(p, m.group(1))], "Wrapping")
+        m = re.match(r"(\{closure@[^}]*\}) \{ (.*) \}$", s)
+        if m:
+            fields = split_top(m.group(2))
+            return Tup([self.operand(p, f.split(": ", 1)[1]) for f in fields], m.group(1))
+        m = re.match(r"(\{closure@[^}]*\})$", s)
+        if m:
+            return Tup([], m.group(1))
+        ev = self.enum_aggregate(p, s, dest_ty)
+        if ev is not None:
+            return ev
         m = re.match(r"([\w:<>, ]+?) \{ (.*) \}$", s)
         if m:
             fields = split_top(m.group(2))
@@ -758,6 +884,37 @@ class Interp:
             if r is not None:
                 return r
         raise Unsupported("rvalue " + s)
+
+    def enum_aggregate(self, p, s, dest_ty):
+        """`Path::Variant`, `Path::Variant(ops)`, `Path::Variant { f: op, .. }`, or a bare `Variant` typed by the destination"""
+        if self.registry is None:
+            return None
+        m = re.match(r"((?:[\w]+(?:::<[^()]*?>)?::)*)(\w+)\s*(?:\((.*)\)|\{ (.*) \})?$", s)
+        if not m:
+            return None
+        path, vname, targs, fargs = m.group(1), m.group(2), m.group(3), m.group(4)
+        ename = None
+        if path:
+            segs = [re.sub(r"<.*", "", x) for x in path.rstrip(":").split("::") if x]
+            ename = segs[-1] if segs else None
+        elif dest_ty:
+            ename = re.sub(r"<.*", "", dest_ty.split("::")[-1]).strip()
+        ed = self.registry.get(ename) if ename else None
+        if ed is None or vname not in ed.by_name:
+            return None
+        fields = ed.fields(vname)
+        vals = []
+        if targs is not None:
+            vals = [self.operand(p, x) for x in split_top(targs)]
+        elif fargs is not None:
+            byname = {}
+            for f in split_top(fargs):
+                k, v = f.split(": ", 1)
+                byname[k.strip()] = self.operand(p, v)
+            vals = [byname[f] for f in fields]
+        d = ed.discr(vname)
+        payloads = {d: Tup(vals)} if (vals or fields) else {}
+        return Enum(self.const_int(d, "isize"), payloads, ed.variant_map(), ed.name)
 
     @staticmethod
     def _strip_parens(s):
@@ -830,7 +987,9 @@ class Interp:
         if i < 0:
             raise Unsupported("statement " + s)
         lhs, rhs = s[:i].strip(), s[i + 3:].strip()
-        val = self.rvalue(fn, p, rhs, None)
+        mloc = re.match(r"_(\d+)$", lhs)
+        dest_ty = fn.locals.get(int(mloc.group(1))) if mloc else None
+        val = self.rvalue(fn, p, rhs, dest_ty)
         self.write_place(p, lhs, val)
 
     @staticmethod
@@ -957,14 +1116,18 @@ class Interp:
         # push a frame on the same path object: forks inside the callee copy caller frames too,
         # so mutations through &mut references stay consistent per path
         p.stack.append(p.locals)
+        p.fn_stack = list(p.fn_stack) + [target]
         p.locals = {}
         for (idx, ty), a in zip(target.params, args):
             p.locals[idx] = Cell(a)
         done = []
+        saved_steps = getattr(p, "steps", 0)
         self._exec(target, p, 0, {}, done)
         out = []
         for d in done:
             d.locals = d.stack.pop()
+            d.fn_stack = d.fn_stack[:-1]
+            d.steps = saved_steps
             if d.outcome[0] == "return":
                 rv = d.outcome[1]
                 d.outcome = None
@@ -991,6 +1154,8 @@ def copy_value(v):
         return Tup([copy_value(x) for x in v.f], v.name)
     if isinstance(v, Enum):
         return Enum(v.discr, {k: copy_value(t) for k, t in v.payloads.items()}, v.variants, v.name)
+    if isinstance(v, Seq):
+        return Seq([copy_value(x) for x in v.items])
     return v
 
 
@@ -1002,6 +1167,8 @@ def fork(p):
     q.locals = {k: _copy_cell(c, memo) for k, c in p.locals.items()}
     q.stack = [{k: _copy_cell(c, memo) for k, c in fr.items()} for fr in p.stack]
     q.trace = list(p.trace)
+    q.fn_stack = list(getattr(p, "fn_stack", []))
+    q.steps = getattr(p, "steps", 0)
     return q
 
 
@@ -1027,6 +1194,105 @@ def _copy_val(v, memo):
         return Enum(v.discr, {k: _copy_val(t, memo) for k, t in v.payloads.items()}, v.variants, v.name)
     if isinstance(v, Ref):
         return Ref(_copy_cell(v.cell, memo), v.path)
+    if isinstance(v, Seq):
+        return Seq([_copy_val(x, memo) for x in v.items])
     if hasattr(v, "clone_obj"):
         return v.clone_obj(memo)
     return v
+
+
+# ----------------------------------------------------------------------------- state merging
+def _common_prefix(a, b):
+    n = 0
+    while n < len(a) and n < len(b) and a[n].eq(b[n]):
+        n += 1
+    return n
+
+
+def merge_paths(it, p, q, live):
+    """merge q into p if their (live) states are structurally compatible; returns merged path or None"""
+    if len(p.stack) != len(q.stack) or [f.header for f in p.fn_stack] != [f.header for f in q.fn_stack]:
+        return None
+    n = _common_prefix(p.pc, q.pc)
+    cp = z3.And(p.pc[n:]) if len(p.pc) > n else z3.BoolVal(True)
+    cq = z3.And(q.pc[n:]) if len(q.pc) > n else z3.BoolVal(True)
+    memo = {}
+    try:
+        keys = set(p.locals) | set(q.locals)
+        if live is not None:
+            keys &= live
+        new_locals = {}
+        for k in keys:
+            if k not in p.locals or k not in q.locals:
+                return None
+            new_locals[k] = _merge_cell(it, p.locals[k], q.locals[k], cp, memo)
+        new_stack = []
+        for fp, fq in zip(p.stack, q.stack):
+            if set(fp) != set(fq):
+                return None
+            new_stack.append({k: _merge_cell(it, fp[k], fq[k], cp, memo) for k in fp})
+    except _NoMerge:
+        return None
+    r = Path()
+    r.pc = p.pc[:n] + [z3.simplify(z3.Or(cp, cq))]
+    r.locals, r.stack = new_locals, new_stack
+    r.fn_stack = list(p.fn_stack)
+    r.steps = max(p.steps, q.steps)
+    return r
+
+
+class _NoMerge(Exception):
+    pass
+
+
+def _merge_cell(it, a, b, cp, memo):
+    key = (id(a), id(b))
+    if key in memo:
+        return memo[key]
+    c = Cell(None)
+    memo[key] = c
+    c.v = _merge_val(it, a.v, b.v, cp, memo)
+    return c
+
+
+def _merge_val(it, a, b, cp, memo):
+    if a is None and b is None:
+        return None
+    if type(a) is not type(b):
+        raise _NoMerge()
+    if isinstance(a, Int):
+        if a.w != b.w:
+            raise _NoMerge()
+        return a if a.t.eq(b.t) else Int(z3.If(cp, a.t, b.t), a.w, a.signed)
+    if isinstance(a, Bool):
+        return a if a.t.eq(b.t) else Bool(z3.If(cp, a.t, b.t))
+    if isinstance(a, Tup):
+        if len(a.f) != len(b.f):
+            raise _NoMerge()
+        return Tup([_merge_val(it, x, y, cp, memo) for x, y in zip(a.f, b.f)], a.name)
+    if isinstance(a, Enum):
+        keys = set(a.payloads) | set(b.payloads)
+        pl = {}
+        for k in keys:
+            if k in a.payloads and k in b.payloads:
+                pl[k] = _merge_val(it, a.payloads[k], b.payloads[k], cp, memo)
+            else:
+                pl[k] = a.payloads.get(k) or b.payloads.get(k)   # only one side can be in this variant
+        return Enum(_merge_val(it, a.discr, b.discr, cp, memo), pl, a.variants, a.name)
+    if isinstance(a, Ref):
+        if a.path != b.path:
+            raise _NoMerge()
+        return Ref(_merge_cell(it, a.cell, b.cell, cp, memo), a.path)
+    if isinstance(a, Seq):
+        if len(a.items) != len(b.items):
+            raise _NoMerge()
+        return Seq([_merge_val(it, x, y, cp, memo) for x, y in zip(a.items, b.items)])
+    if isinstance(a, (Unit,)):
+        return a
+    if isinstance(a, Opaque):
+        if a.name == b.name:
+            return a
+        raise _NoMerge()
+    if hasattr(a, "merge_obj"):
+        return a.merge_obj(it, b, cp, memo)
+    raise _NoMerge()
